@@ -221,7 +221,8 @@ class ChildrenList(list):
         :type item: :py:class:`psyclone.psyir.nodes.Node`
 
         '''
-        self._validate_item(index, item)
+        positiveindex = index if index >= 0 else len(self) + index
+        self._validate_item(positiveindex, item)
         self._check_is_orphan(item)
         self._del_parent_link(self[index])
         super().__setitem__(index, item)
@@ -236,7 +237,9 @@ class ChildrenList(list):
         :type item: :py:class:`psyclone.psyir.nodes.Node`
 
         '''
-        positiveindex = index if index >= 0 else len(self) - index
+        # The list 'insert' method clips the given index to [0, len(self)]
+        positiveindex = index if index >= 0 else len(self) + index
+        positiveindex = max(0, min(positiveindex, len(self)))
         self._validate_item(positiveindex, item)
         self._check_is_orphan(item)
         # Check that all displaced items will still in valid positions
@@ -269,7 +272,7 @@ class ChildrenList(list):
         :param int index: position where to insert the item.
 
         '''
-        positiveindex = index if index >= 0 else len(self) - index
+        positiveindex = index if index >= 0 else len(self) + index
         for position in range(positiveindex + 1, len(self)):
             self._validate_item(position - 1, self[position])
         self._del_parent_link(self[index])
@@ -299,7 +302,7 @@ class ChildrenList(list):
         :rtype: :py:class:`psyclone.psyir.nodes.Node`
 
         '''
-        positiveindex = index if index >= 0 else len(self) - index
+        positiveindex = index if index >= 0 else len(self) + index
         # Check if displaced items after 'positiveindex' will still be valid
         for position in range(positiveindex + 1, len(self)):
             self._validate_item(position - 1, self[position])
